@@ -6,15 +6,17 @@ use super::c13::{oracle, spec};
 use crate::srv::{Ev, MsgPolicy, Stray, Walk, comp_id, make_policies, run_walk};
 use crate::util::{Report, Tier, par_map};
 
-fn menu(n: usize, party: usize) -> Vec<Stray> {
+fn menu(n: usize, party: usize, thorough: bool) -> Vec<Stray> {
     let mut v = vec![Stray::ScheduleSame, Stray::Run];
     for q in (0..n).filter(|q| *q != party) {
         v.push(Stray::ScheduleOtherParty(q as u8));
     }
-    for from in [0u64, (n - 1) as u64, n as u64, u64::MAX] {
+    let consts_from: Vec<u64> = if thorough { vec![0, (n - 1) as u64, n as u64, u64::MAX] } else { vec![0, n as u64, u64::MAX] };
+    for from in consts_from {
         v.push(Stray::Consts { from });
     }
-    for from in [0u64, party as u64, (n - 1) as u64, n as u64, (n + 5) as u64, u64::MAX] {
+    let msg_from: Vec<u64> = if thorough { vec![0, party as u64, (n - 1) as u64, n as u64, (n + 5) as u64, u64::MAX] } else { vec![0, party as u64, n as u64, u64::MAX] };
+    for from in msg_from {
         for empty in [true, false] {
             v.push(Stray::Msg { from, empty });
         }
@@ -73,7 +75,7 @@ pub fn main(tier: Tier, seed: u64) -> i32 {
         positions.sort();
         positions.dedup();
         for party in 0..*n {
-            for cmd in menu(*n, party) {
+            for cmd in menu(*n, party, tier.is_thorough()) {
                 // a schedule is a *duplicate* (invalid for the state) only after the party's own schedule
                 let own_sched = base.history.iter().position(|e| matches!(e, Ev::Schedule { party: p, .. } if *p as usize == party)).unwrap_or(0);
                 for &at in &positions {
